@@ -1348,6 +1348,141 @@ func ruleStreamRequestsAnswered(p *Program, r *Report) {
 		}
 		r.Check(!unanswered, "answers@"+FnName(fn), "each iteration sends an acknowledgement or returns", fmt.Sprintf("%s can go from one Recv to the next without a Send on the stream: that request gets neither an acknowledgement nor a terminal error, so the client (which can only count acknowledgements) waits forever or attributes later acknowledgements to the wrong request", FnName(fn)), recv.Pos())
 	}
+	// the per-request step extracted into a helper that is handed the stream: `more, err := s.serveOne(ctx, stream, …)`
+	// in a loop.  The helper's returns that follow its Recv without a Send are "unanswered"; with their constant
+	// results (false / nil) substituted, the caller must not be able to come back to the call.
+	for _, fn := range p.RepoFns {
+		ForEachInstr(fn, func(ins ssa.Instruction) {
+			call, ok := ins.(*ssa.Call)
+			if !ok || !Reaches(call.Block(), call.Block(), false) {
+				return
+			}
+			h := call.Call.StaticCallee()
+			if h == nil || h.Pkg != fn.Pkg || h.Blocks == nil {
+				return
+			}
+			var recv *ssa.Call
+			ForEachInstr(h, func(i2 ssa.Instruction) {
+				if c, ok := i2.(*ssa.Call); ok && c.Call.IsInvoke() && c.Call.Method.Name() == "Recv" && strings.HasSuffix(c.Call.Value.Type().String(), "Server") {
+					if _, isParam := c.Call.Value.(*ssa.Parameter); isParam {
+						recv = c
+					}
+				}
+			})
+			if recv == nil || Reaches(recv.Block(), recv.Block(), false) {
+				return // no Recv on a stream parameter, or the helper has its own loop (handled above)
+			}
+			n++
+			r.Fn(FnName(fn))
+			r.Fn(FnName(h))
+			sends := map[*ssa.BasicBlock]bool{}
+			ForEachInstr(h, func(i2 ssa.Instruction) {
+				if c, ok := i2.(*ssa.Call); ok && c.Call.IsInvoke() && c.Call.Method.Name() == "Send" && c.Call.Value == recv.Call.Value {
+					sends[c.Block()] = true
+				}
+			})
+			// unanswered returns of the helper
+			type konst struct {
+				known bool
+				isNil bool
+				b     bool
+			}
+			var tuples [][]konst
+			seen := map[*ssa.BasicBlock]bool{}
+			work := []*ssa.BasicBlock{recv.Block()}
+			for len(work) > 0 {
+				b := work[len(work)-1]
+				work = work[:len(work)-1]
+				if seen[b] || (sends[b] && b != recv.Block()) {
+					continue
+				}
+				seen[b] = true
+				if ret, ok := b.Instrs[len(b.Instrs)-1].(*ssa.Return); ok {
+					var t []konst
+					for i := range ret.Results {
+						v := RetVal(ret, i)
+						k := konst{}
+						if bv, isB := BoolConst(v); isB {
+							k = konst{known: true, b: bv}
+						} else if IsNilConst(v) {
+							k = konst{known: true, isNil: true}
+						}
+						t = append(t, k)
+					}
+					tuples = append(tuples, t)
+				}
+				work = append(work, b.Succs...)
+			}
+			unanswered := false
+			for _, t := range tuples {
+				// value of a condition in the caller under this result tuple
+				var eval func(v ssa.Value, depth int) (bool, bool)
+				resOf := func(v ssa.Value) (konst, bool) {
+					if ex, ok := v.(*ssa.Extract); ok && ex.Tuple == ssa.Value(call) && ex.Index < len(t) {
+						return t[ex.Index], true
+					}
+					if v == ssa.Value(call) && len(t) == 1 {
+						return t[0], true
+					}
+					return konst{}, false
+				}
+				eval = func(v ssa.Value, depth int) (bool, bool) {
+					if depth > 4 {
+						return false, false
+					}
+					if k, ok := resOf(v); ok && k.known && !k.isNil {
+						return k.b, true
+					}
+					switch x := v.(type) {
+					case *ssa.UnOp:
+						if x.Op == token.NOT {
+							bv, ok := eval(x.X, depth+1)
+							return !bv, ok
+						}
+					case *ssa.BinOp:
+						if x.Op == token.EQL || x.Op == token.NEQ {
+							for _, pr := range [][2]ssa.Value{{x.X, x.Y}, {x.Y, x.X}} {
+								if k, ok := resOf(pr[0]); ok && k.known && k.isNil && IsNilConst(pr[1]) {
+									return x.Op == token.EQL, true
+								}
+							}
+						}
+					}
+					return false, false
+				}
+				seenC := map[*ssa.BasicBlock]bool{}
+				var workC []*ssa.BasicBlock
+				push := func(b *ssa.BasicBlock) {
+					if iff, ok := b.Instrs[len(b.Instrs)-1].(*ssa.If); ok {
+						if bv, known := eval(iff.Cond, 0); known {
+							if bv {
+								workC = append(workC, b.Succs[0])
+							} else {
+								workC = append(workC, b.Succs[1])
+							}
+							return
+						}
+					}
+					workC = append(workC, b.Succs...)
+				}
+				push(call.Block())
+				for len(workC) > 0 {
+					b := workC[len(workC)-1]
+					workC = workC[:len(workC)-1]
+					if b == call.Block() {
+						unanswered = true
+						break
+					}
+					if seenC[b] {
+						continue
+					}
+					seenC[b] = true
+					push(b)
+				}
+			}
+			r.Check(!unanswered, "answers@"+FnName(fn), "each iteration sends an acknowledgement or leaves the loop (step in "+FnName(h)+")", fmt.Sprintf("%s can start the next %s after a step that received a request and returned without a Send on the stream: that request gets neither an acknowledgement nor a terminal error", FnName(fn), FnName(h)), call.Pos())
+		})
+	}
 	if n == 0 {
 		r.Undecided("sites", "no stream-receiving loop found (the gRPC Update handler is expected)", 0)
 	}
